@@ -379,7 +379,7 @@ class Model:
                 return ("external", r[1])
             if expr.id in ("True", "False", "None"):
                 return {"True": True, "False": False, "None": None}[expr.id]
-            return ("name", expr.id)
+            raise AnalysisError(f"not a constant: name {expr.id}")
         if isinstance(expr, ast.Attribute):
             if isinstance(expr.value, ast.Name):
                 r = self.resolve_name(module, expr.value.id)
